@@ -73,6 +73,7 @@
 //! ```
 
 use crate::active_request::RequestId;
+use crate::node::PortTag;
 use crate::port::details::chunk::ChunkMut;
 use crate::port::details::data_segment_shared_state::DataSegmentSharedState;
 use crate::service::header::request_response::RequestHeader;
@@ -189,7 +190,7 @@ pub struct ClientSharedState<Service: service::Service> {
     // the struct.
     // Otherwise the process might crash during cleanup, has already removed the tag but other resources
     // are still existing. This would make a cleanup from another process impossible.
-    port_tag: Service::StaticStorage,
+    port_tag: PortTag<Service>,
 }
 
 impl<Service: service::Service> DataSegmentSharedState for ClientSharedState<Service> {
@@ -240,7 +241,7 @@ impl<Service: service::Service> Abandonable for ClientSharedState<Service> {
         let this = unsafe { this.as_mut() };
         unsafe { Sender::abandon_in_place(NonNull::from_mut(&mut this.request_sender)) };
         unsafe { Receiver::abandon_in_place(NonNull::from_mut(&mut this.response_receiver)) };
-        unsafe { Service::StaticStorage::abandon_in_place(NonNull::from_mut(&mut this.port_tag)) };
+        unsafe { PortTag::<Service>::abandon_in_place(NonNull::from_mut(&mut this.port_tag)) };
     }
 }
 
